@@ -70,7 +70,8 @@ def gen_value(rng, U: Universe, f: FS, hostile: float = 0.15) -> Any:
         m = U.module.__dict__
         P_ = U.P
         I, St, L = m[f"{P_}IntT"], m[f"{P_}StrT"], m[f"{P_}ListOf"]
-        return rng.choice([None, I(), St(), L(I()), L(St()), L(L(I())), L(L(St())), L(()), L(None), (I(),), (St(),)])
+        Q = m[f"{P_}Qty"]
+        return rng.choice([None, I(), St(), L(I()), L(St()), L(L(I())), L(L(St())), L(()), L(None), (I(),), (St(),), Q(2.5, "kg"), Q(2.5, "lb"), Q(2.5, "kg"), Q(1.0, "")])
     if k == "nested":
         return rng.choice([(1.0, 2.0, 3.0), ((1, 2), 3), ((1, 2, 3),), (1, (2, 3)), ((1,), (2, 3)), (1, 2, 3), ((),), (), ("pkg", ("mod", "cls")), ("pkg", ("mod",), "cls"), (("pkg", "mod"), "cls")])
     if k == "flags":
